@@ -38,6 +38,7 @@ type (
 		//«s16»
 		cf int
 	}
+	H struct{ hf int }
 )
 
 type E struct{}
@@ -208,13 +209,14 @@ func c15bAttachment(maxNonPlain int, only []string) {
 	for _, a := range ann.MutableAnnotations {
 		mutT = append(mutT, a.OnType)
 	}
-	// A2 has a two-line doc (s13, s19): each line is recognised on its own
+	// A2 has a two-line doc (s13, s19): each line is recognised on its own; the group's doc s2 reaches B and H (one record
+	// each), and H — the member after G — gets nothing from G's own doc s15
 	two := func(alt string) int { return count(is("s13", alt)) + count(is("s19", alt)) }
-	wantImm := count(is("s1", " @immutable")) + count(is("s2", " @immutable")) + two(" @immutable")
-	wantCtor := count(is("s1", " @constructor New, Make")) + count(is("s2", " @constructor New, Make")) + two(" @constructor New, Make")
-	wantImpl := count(is("s1", " @implements &pk.Iface")) + count(is("s2", " @implements &pk.Iface")) + two(" @implements &pk.Iface")
-	wantTest := count(is("s1", " @testonly")) + count(is("s2", " @testonly")) + count(is("s3", " @testonly")) + count(is("s4", " @testonly")) + two(" @testonly")
-	wantPkg := count(is("s1", " @packageonly w")) + count(is("s2", " @packageonly w")) + count(is("s3", " @packageonly w")) + count(is("s4", " @packageonly w")) + two(" @packageonly w")
+	wantImm := count(is("s1", " @immutable")) + 2*count(is("s2", " @immutable")) + two(" @immutable")
+	wantCtor := count(is("s1", " @constructor New, Make")) + 2*count(is("s2", " @constructor New, Make")) + two(" @constructor New, Make")
+	wantImpl := count(is("s1", " @implements &pk.Iface")) + 2*count(is("s2", " @implements &pk.Iface")) + two(" @implements &pk.Iface")
+	wantTest := count(is("s1", " @testonly")) + 2*count(is("s2", " @testonly")) + count(is("s3", " @testonly")) + count(is("s4", " @testonly")) + two(" @testonly")
+	wantPkg := count(is("s1", " @packageonly w")) + 2*count(is("s2", " @packageonly w")) + count(is("s3", " @packageonly w")) + count(is("s4", " @packageonly w")) + two(" @packageonly w")
 	a2Imm := nd.Or(is("s13", " @immutable"), is("s19", " @immutable"))
 	// @mutable only on the named field of a struct whose own doc carries @immutable
 	wantMut := count(nd.And(is("s5", " @mutable"), is("s1", " @immutable"))) + count(nd.And(is("s6", " @mutable"), is("s2", " @immutable"))) + count(nd.And(is("s14", " @mutable"), a2Imm))
@@ -235,15 +237,16 @@ func c15bAttachment(maxNonPlain int, only []string) {
 	gImm := nd.Or(is("s15", " @immutable"), is("s2", " @immutable"))
 	nd.Assert((onC(mutT) >= 1) == nd.And(is("s16", " @mutable"), gImm), "@mutable on the field of a group member that is @immutable by its own or the group's doc")
 	for _, a := range ann.ImmutableAnnotations {
-		nd.Assert(nd.Or(nd.And(a.OnType == "A", is("s1", " @immutable")), nd.And(a.OnType == "B", is("s2", " @immutable")), nd.And(a.OnType == "A2", a2Imm), a.OnType == "G"), "@immutable attached to the documented type")
+		nd.Assert(nd.Or(nd.And(a.OnType == "A", is("s1", " @immutable")), nd.And(a.OnType == "B", is("s2", " @immutable")), nd.And(a.OnType == "H", is("s2", " @immutable")), nd.And(a.OnType == "A2", a2Imm), a.OnType == "G"), "@immutable attached to the documented type")
 	}
 	for _, a := range ann.ConstructorAnnotations {
-		nd.Assert(nd.And(len(a.ConstructorNames) == 2, nd.Or(a.OnType == "A", a.OnType == "B", a.OnType == "A2", a.OnType == "G")), "@constructor value")
+		nd.Assert(nd.And(len(a.ConstructorNames) == 2, nd.Or(a.OnType == "A", a.OnType == "B", a.OnType == "H", a.OnType == "A2", a.OnType == "G")), "@constructor value")
 	}
 	for _, a := range ann.TestonlyAnnotations {
 		ok := nd.Or(
 			nd.And(a.Kind == annotations.TestOnlyOnType, a.ObjectName == "A", is("s1", " @testonly")),
 			nd.And(a.Kind == annotations.TestOnlyOnType, a.ObjectName == "B", is("s2", " @testonly")),
+			nd.And(a.Kind == annotations.TestOnlyOnType, a.ObjectName == "H", is("s2", " @testonly")),
 			nd.And(a.Kind == annotations.TestOnlyOnType, a.ObjectName == "G"),
 			nd.And(a.Kind == annotations.TestOnlyOnType, a.ObjectName == "A2", nd.Or(is("s13", " @testonly"), is("s19", " @testonly"))),
 			nd.And(a.Kind == annotations.TestOnlyOnFunc, a.ObjectName == "F", is("s3", " @testonly")),
